@@ -849,6 +849,22 @@ def lower(facts, e):
                     r = apply_closure(facts, src[2][1], [_payload(o, var)])
                     if r is not None:
                         return r
+    if k == 'call' and len(e[2]) == 2 and (re.search(r'ops::(function::)?Fn(Mut|Once)?::call(_mut|_once)?$', e[1]) or re.search(r'::\{closure#\d+\}$', e[1])):
+        # `f(a, b)` with f a closure value: Fn::call(&f, (a, b)) - resolved to the closure body or left generic in a helper
+        c = e[2][0]
+        while c[0] in ('ref', 'deref'):
+            c = c[1]
+        tup = e[2][1]
+        while tup[0] in ('ref', 'deref'):
+            tup = tup[1]
+        if c[0] == 'aggr' and str(c[1]).startswith('closure:') and tup[0] == 'aggr' and tup[1] == 'tuple':
+            v = apply_closure(facts, c, list(tup[2]))
+            if v is not None:
+                return v
+        if c[0] == 'fnitem' and tup[0] == 'aggr' and tup[1] == 'tuple':
+            v = apply_closure(facts, c, list(tup[2]))
+            if v is not None:
+                return v
     if k == 'callptr':
         # a call through a function pointer whose value is a known closure / fn item (a combinator parameter)
         c = e[1]
